@@ -9,6 +9,7 @@ package l2
 import (
 	"context"
 	"encoding/json"
+	"errors"
 	"fmt"
 	"runtime"
 	"sort"
@@ -82,6 +83,7 @@ type ExecD struct {
 	HoldTask   int          `json:"hold_task,omitempty"` // C11: task id+1 held until predicate WatchPred was evaluated
 	WatchPred  int          `json:"watch_pred,omitempty"`
 	CancelOrd  int          `json:"cancel_ord,omitempty"`
+	// CtxKind 2: a context cancelled (or timing out) with a cause (WithCancelCause / WithTimeoutCause).
 	// CtxKind 1: the directive gets a user-defined context.Context type
 	// (engine.UserCtx) instead of a standard cancel context.
 	CtxKind int `json:"ctx_kind,omitempty"`
@@ -1005,6 +1007,9 @@ func (t *recTask) TaskDone(context.Context, time.Duration) { t.e.rec(EmTaskDone,
 
 // ---- running ----
 
+// errCause is the cause a CtxKind 2 context is cancelled with.
+var errCause = errors.New("cancellation cause (not the context's error)")
+
 func (r *runner) caller(i int) {
 	if a := r.execs[i].d.After; a > 0 && a-1 < i {
 		r.sim.Hold(engine.HoldFlag, flagReturned(a-1), 0)
@@ -1032,9 +1037,18 @@ func (r *runner) runExec(x *execRun, parent context.Context) {
 		stdCancel := cancel
 		ctx, cancel = context.WithValue(uc, ctxKey{}, x.token), func() { uc.Cancel(); stdCancel() }
 	}
+	if d.CtxKind == 2 && d.CancelMode != CancelDeadline {
+		// cancelled with a cause: what the directive reports is still the context's error
+		cctx, ccancel := context.WithCancelCause(base)
+		ctx, cancel = cctx, func() { ccancel(errCause) }
+	}
 	if d.CancelMode == CancelDeadline {
 		dl := time.Duration(d.DelaySteps)*engine.Q + time.Duration(2*(d.DelaySteps%1000)+1)
-		ctx, cancel = context.WithTimeout(base, dl)
+		if d.CtxKind == 2 {
+			ctx, cancel = context.WithTimeoutCause(base, dl, errCause)
+		} else {
+			ctx, cancel = context.WithTimeout(base, dl)
+		}
 		sim.SetTimerUntil(time.Now().UnixNano() + int64(dl))
 		sim.AddIdleMax(d.DelaySteps + 4)
 		context.AfterFunc(ctx, func() { x.log(EvCancel, -1, 0, nil, 0, 0); x.count(&x.cancelFired) })
